@@ -8,6 +8,8 @@ Deductive part (real source of _loop.py, _zip.py, _as_list.py, re-read on every 
      list / tuple, idempotent - except the recorded finding C19:as_tuple:idempotent:list-holding-one-list, which must stay visible;
      lens: 0 for no values, ValueError iff two lengths other than 1 differ, otherwise the common length or 1;
      zipper: normalisation, lens by contract, broadcast of length-1 sequences, zip;
+     is_iterable / len0 (the predicates zipper, lens and _item_by_key call): whole bodies on the value datatype - True exactly for list / tuple / range-like /
+     dict; len(x) for sized containers, 0 for None, strings, scalars and zip objects; neither raises;
      loops._wrapped for list / tuple / dict: same container type, same length / keys, element = the recursive result on (element, companions
      selected by index / key) - structural recursion with the function's own contract as hypothesis; _item_by_i / _item_by_key against their contract.
 Bounded only (rac/C19.py, never counted as proved): the library functions built with loop(...) on nestings to depth 4, and waiter under every
@@ -133,6 +135,57 @@ def aslist_section(ctx):
     ctx.cover('as_tuple.known_class_satisfiable', dom + [known_class(x), TAG(x) == T_LIST])
     ctx.trust('value datatype of as_list / as_tuple: None, list, tuple, range-like (range, dict_keys, dict_values, zip), dict, other; idempotence of as_tuple '
               'is claimed for None / list / tuple / dict / scalar inputs (the structures of the property), not for range-like inputs')
+
+
+# ================================================================================================ is_iterable / len0 (callees of zipper, lens, cmp)
+def predicates_section(ctx, which):
+    """is_iterable(value) (`_types.py`, with is_str inlined) and len0(value) (`_loop.py`, with is_str and _zero inlined), executed from the real AST on a
+    symbolic value of the container datatype: None, list, tuple, range-like (range / dict_keys / dict_values / zip), dict, other (a string or a scalar).
+    is_iterable: True exactly for list, tuple, range-like and dict values.  len0: len(x) for a list, tuple, dict and a sized range-like x; 0 for None,
+    strings, other scalars and zip objects; neither raises.  These are the contracts `Conts` hands to zipper / lens / _item_by_key."""
+    from pyvc.th_cont import is_iter, len0_spec, sized, ISSTRV, SIZEDV
+    mt, ml = ctx.mod('_types'), ctx.mod('_loop')
+    x = Const('X', Val)
+    dom = [LEN(SEQ(x)) >= 0, TAG(x) >= 0, TAG(x) <= 5]
+    wit = dict(tag=TAG(x), is_str=ISSTRV(x), sized=SIZEDV(x), length=LEN(SEQ(x)))
+    if which == 'is_iterable':
+        m, fn = mt, mt.func('is_iterable')
+        inline = {'is_iterable': (mt, fn), 'is_str': (mt, mt.func('is_str'))}
+    else:
+        m, fn = ml, ml.func('len0')
+        inline = {'len0': (ml, fn), 'is_str': (mt, mt.func('is_str')), '_zero': (ml, ml.func('_zero'))}
+    ex = Exec(m, [Conts(len_raises=True), TypePreds()], inline=inline, name=which)
+    st = State(); st.pc += dom
+    outs = ex.run_function(st, which, [CV(x)], {})
+    ctx.absorb(ex)
+    for nm, (m_, f_) in inline.items():
+        ctx.record_function(m_, nm, f_, ex.stmts_executed, how='symbolic execution' if nm == which else 'inlined into ' + which)
+    kw = dict(witness=wit, replay=rp(which))
+    nret = 0
+    for o in outs:
+        hy = ex.facts + o.st.pc
+        if o.kind != 'return':
+            ctx.post('%s.never_raises.%s' % (which, o.val), hy, BoolVal(False), kind='safety', **kw)
+            continue
+        nret += 1
+        r = o.val
+        if which == 'is_iterable':
+            if r.kind != 'bool':
+                raise OutOfSubset('is_iterable returns a %s' % r.kind)
+            ctx.post('is_iterable.true_exactly_for_list_tuple_range_like_and_dict', hy, r.t == is_iter(CV(x)), **kw)
+            ctx.post('is_iterable.false_for_a_string', hy + [ISSTRV(x)], Not(r.t), **kw)
+        else:
+            if r.kind != 'int':
+                raise OutOfSubset('len0 returns a %s' % r.kind)
+            ctx.post('len0.is_len_for_sized_containers_and_0_otherwise', hy, r.t == len0_spec(x), **kw)
+            ctx.post('len0.zero_for_a_string', hy + [ISSTRV(x)], r.t == 0, **kw)
+            ctx.post('len0.zero_for_a_zip_object', hy + [TAG(x) == T_RNG, Not(SIZEDV(x))], r.t == 0, **kw)
+            ctx.post('len0.nonnegative', hy, r.t >= 0, **kw)
+    if nret == 0:
+        raise OutOfSubset('%s has no returning path' % which)
+    for nm, c in (('list', [TAG(x) == T_LIST, LEN(SEQ(x)) == 2]), ('string', [ISSTRV(x)]), ('none', [TAG(x) == T_NONE]), ('zip', [TAG(x) == T_RNG, Not(SIZEDV(x))]),
+                  ('scalar', [TAG(x) == T_OTHER, Not(ISSTRV(x))])):
+        ctx.cover('%s.domain_satisfiable.%s' % (which, nm), dom + c + ex.facts)
 
 
 # ================================================================================================ lens
@@ -398,9 +451,55 @@ def wrapped_section(ctx):
               'container classes, leaves = function(leaf, companions selected along the path)')
 
 
+def wrapped_prelude_section(ctx):
+    """loops.wrapped(self, *args, **kwargs) called with at least one positional argument (how a lifted function is normally called; wrapper.__call__ forwards
+    the caller's containers: C18): the first positional argument is what is looped over, the remaining positionals and all keywords are its companions -
+    the result is self._wrapped(args[0], args[1:], kwargs).  Series first arguments are excluded by the path precondition (no pandas / numpy values);
+    calls with keywords only (first argument popped from kwargs by name) are bounded-checked only."""
+    from pyvc.th_cont import Lift, Args, Kw, ALEN, AAT, WRAP
+    m = ctx.mod('_loop')
+    fn = m.func('loops.wrapped')
+    ARGS, KWS = Const('ARGS', Args), Const('KWS', Kw)
+    NA = ALEN(ARGS)
+    q = Int('Q')
+    wit = dict(site=IntVal(0))
+    lift = Lift(by_contract=('_wrapped', 'function'))
+    ex = Exec(m, [lift, Conts(), TypePreds()], inline={'loops.wrapped': (m, fn)}, name='wrapped.positional')
+    st = State()
+    st.pc += [NA >= 1]
+    args_sv = SV('cvs', None, n=NA, at=lambda s_, j_: CV(AAT(ARGS, j_)))
+    outs = ex.run_function(st, 'loops.wrapped', [SV('obj', None, cls='loops')], {'*': args_sv, '**': SV('kwmap', KWS)})
+    ctx.absorb(ex)
+    ctx.record_function(m, 'loops.wrapped', fn, ex.stmts_executed,
+                        excluded=['no positional argument (the first argument given by keyword is popped from kwargs): bounded stand-in only',
+                                  'pd.Series first argument: path precondition "no value is a pandas / numpy object"'])
+    nret = 0
+    for o in outs:
+        hy = ex.facts + o.st.pc
+        if o.kind != 'return':
+            ctx.post('wrapped.positional.never_raises.%s' % o.val, hy, BoolVal(False), kind='safety', witness=wit, replay=rp('wrapped_prelude'))
+            continue
+        nret += 1
+        calls = [c for c in lift.calls if c[0] == '_wrapped']
+        ctx.post('wrapped.positional.one_call_of__wrapped_and_none_of_the_function', hy, BoolVal(len(calls) == 1 and not [c for c in lift.calls if c[0] == 'function']),
+                 witness=wit, replay=rp('wrapped_prelude'))
+        if len(calls) != 1 or o.val.kind != 'cv':
+            continue
+        c = calls[0][2]
+        ctx.post('wrapped.positional.returns_the_result_of__wrapped', hy, o.val.t == WRAP(val_of(c['arg']), c['A'], c['K']), witness=wit, replay=rp('wrapped_prelude'))
+        ctx.post('wrapped.positional.loops_over_the_first_positional_argument', hy, val_of(c['arg']) == AAT(ARGS, 0), witness=wit, replay=rp('wrapped_prelude'))
+        ctx.post('wrapped.positional.the_other_positionals_are_the_companions', hy + [0 <= q, q < NA - 1], And(ALEN(c['A']) == NA - 1, AAT(c['A'], q) == AAT(ARGS, q + 1)),
+                 witness=wit, replay=rp('wrapped_prelude'))
+        ctx.post('wrapped.positional.a_single_argument_has_no_positional_companions', hy + [NA == 1], ALEN(c['A']) == 0, witness=wit, replay=rp('wrapped_prelude'))
+        ctx.post('wrapped.positional.keywords_are_handed_on_unchanged', hy, c['K'] == KWS, witness=wit, replay=rp('wrapped_prelude'))
+    if nret == 0:
+        raise OutOfSubset('loops.wrapped has no returning path')
+    ctx.cover('wrapped.positional.two_arguments_reachable', [NA == 2])
+
+
 def attach_replays(ctx):
     """obligations generated inside the executor (measure decrease, preconditions of axioms, safety) get the native re-check of their section"""
-    kinds = (('_wrapped.', 'wrapped'), ('_item_by_i.', 'item_by_i'), ('_item_by_key.', 'item_by_key'), ('zipper.', 'zipper'), ('lens.', 'lens'),
+    kinds = (('wrapped.positional.', 'wrapped_prelude'), ('is_iterable.', 'is_iterable'), ('len0.', 'len0'), ('_wrapped.', 'wrapped'), ('_item_by_i.', 'item_by_i'), ('_item_by_key.', 'item_by_key'), ('zipper.', 'zipper'), ('lens.', 'lens'),
              ('as_list.', 'as_list'), ('as_tuple.', 'as_list'))
     for ob in ctx.obligations:
         short = ob.name[len(PROP) + 1:]
@@ -414,8 +513,11 @@ def attach_replays(ctx):
 def build(ctx):
     frame_section(ctx)
     ctx.guarded('as_list', lambda: aslist_section(ctx))
+    ctx.guarded('is_iterable', lambda: predicates_section(ctx, 'is_iterable'))
+    ctx.guarded('len0', lambda: predicates_section(ctx, 'len0'))
     ctx.guarded('lens', lambda: lens_section(ctx))
     ctx.guarded('zipper', lambda: zipper_section(ctx))
     ctx.guarded('_item_by', lambda: item_by_section(ctx))
     ctx.guarded('_wrapped', lambda: wrapped_section(ctx))
+    ctx.guarded('wrapped.positional', lambda: wrapped_prelude_section(ctx))
     attach_replays(ctx)
